@@ -214,19 +214,19 @@ def evtOfJson (j : Json) : Evt :=
   | "heartbeat" => .heartbeat (jstr (jget j "n"))
   | "lapse" => .lapse (jstr (jget j "n"))
   | "create" => .create (jnat (jget j "id")) (jstr (jget j "n"))
-  | "report" => .report (jnat (jget j "id"))
+  | "report" => .report (jnat (jget j "id")) ⟨jbool (jget j "running"), jbool (jget j "healthy")⟩
   | "stopWatcher" => .stopWatcher
+  | "standby" => .standby
+  | "bypass" => .bypass (jstr (jget j "n"))
   | _ => .startWatcher
 
 def statusStr : Option WStatus → String
   | none => "none"
-  | some ⟨true, true⟩ => "up"
-  | some ⟨false, false⟩ => "down"
-  | _ => "mixed"
+  | some ⟨r, h⟩ => (if r then "1" else "0") ++ (if h then "1" else "0")
 
 def handle (j : Json) : Json :=
   let id := jget j "id"
-  let nodes : List NodeRec := (jarr (jget j "nodes")).map fun n => ⟨jstr (jget n "name"), jbool (jget n "test")⟩
+  let nodes : List NodeRec := (jarr (jget j "nodes")).map fun n => { name := jstr (jget n "name"), test := jbool (jget n "test") }
   -- a lapse by TTL first writes the status key with a short lease (a heartbeat), then it expires
   let evs := (jarr (jget j "script")).flatMap fun e =>
     if jstr (jget e "e") == "lapse" && jstr (jget e "how") == "ttl" then [.heartbeat (jstr (jget e "n")), evtOfJson e] else [evtOfJson e]
@@ -237,13 +237,16 @@ def handle (j : Json) : Json :=
   let modelSt := ids.map fun i => (toString i, statusStr (getStatus fin i))
   let agree := ids.all fun i => jstr (jget implSt (toString i)) == statusStr (getStatus fin i)
   let ob := (obligations evs s0 []).eraseDups
-  let viol := (ob.filter fun i => jstr (jget implSt (toString i)) != "down").map fun i => s!"C28:workload-still-up:{i}"
+  let viol := (ob.filter fun i => jstr (jget implSt (toString i)) != "00").map fun i => s!"C28:workload-still-up:{i}"
   let nlapse := (evs.filter fun e => match e with | .lapse _ => true | _ => false).length
+  let hasStandby := evs.any (· == .standby)
+  let hasBypass := evs.any fun e => match e with | .bypass _ => true | _ => false
   let startIdx := evs.findIdx (· == .startWatcher)
   let lapseBefore := (evs.take startIdx).any fun e => match e with | .lapse _ => true | _ => false
   let lapseAfter := (evs.drop startIdx).any fun e => match e with | .lapse _ => true | _ => false
   let cls := "down:" ++ (if ob.isEmpty then "none" else "marked") ++ (if lapseBefore then "+before" else "") ++
-    (if lapseAfter then "+after" else "") ++ (if nodes.any (·.test) then "+test" else "")
+    (if lapseAfter then "+after" else "") ++ (if nodes.any (·.test) then "+test" else "") ++
+    (if hasStandby then "+failover" else "") ++ (if hasBypass then "+bypass" else "")
   verdict id agree (Json.mkObj (modelSt.map fun p => (p.1, Json.str p.2))) viol cls (ob.isEmpty || nlapse == 0 && !lapseBefore && ob.isEmpty)
 
 end NDO
